@@ -6,7 +6,7 @@ from vlib import NoVerdict, log
 
 OVERLAY = {"attestation/yubiattest/zz_verif_attest_test.go": os.path.join(vlib.HARNESS, "attest", "zz_verif_attest_test.go"),
            "attestation/yubiattest/zz_verif_attest16_test.go": os.path.join(vlib.HARNESS, "attest", "zz_verif_attest16_test.go")}
-TRACE_CFG = "SPECIFICATION TraceSpec\nCONSTANTS\n  MHBytes = {0}\n  MaxVal = 0"
+TRACE_CFG = "SPECIFICATION TraceSpec\nCONSTANTS\n  MHBytes = {0}\n  MaxVal = 0\n  MutCtx <- MutCtxAll"
 CONF = {
     "C06": dict(test="TestVerifAttest06", fml="TC06", strict="Strict06",
                 quick=dict(cfg="MCAttest_06", bits=[1024, 2048, 3072], nflip=40),
@@ -29,9 +29,9 @@ def key_of(prop, e):
         return "op=attest attestor=%s kt=%s alg=%d rel=%s time=%s sf=%s mut=%s shape=%s acc=%s pan=%s" % (
             e.get("hist", "?"), e["kt"], e["alg"], e["rel"], e["time"], e["sf"], e["mut"], e["em"]["shape"], str(r["acc"]).lower(), pan)
     if e["op"] == "modhex":
-        return "op=modhex vlen=%d present=%s ok=%s pan=%s" % (len(e["val"]), str(e["present"]).lower(), str(r["ok"]).lower(), pan)
+        return "op=modhex history=%s vlen=%d present=%s ok=%s pan=%s" % (e.get("hist", "-"), len(e["val"]), str(e["present"]).lower(), str(r["ok"]).lower(), pan)
     if e["op"] == "parse":
-        return "op=parse kt=%s sa=%s tail=%s yok=%s sok=%s eq=%d pan=%s" % (e["kt"], e["sa"], e["tail"], str(r["yok"]).lower(),
+        return "op=parse history=%s kt=%s sa=%s tail=%s yok=%s sok=%s eq=%d pan=%s" % (e.get("hist", "-"), e["kt"], e["sa"], e["tail"], str(r["yok"]).lower(),
                                                                             str(r["sok"]).lower(), len(r["eq"]), pan)
     if e["op"] == "pem":
         return "op=pem n=%d lead=%s trail=%s ok=%s got=%d pan=%s" % (e["n"], e["lead"], e["trail"], str(r["ok"]).lower(), len(r["idx"]), pan)
